@@ -2,4 +2,93 @@ import BitstringModel.Model.C08
 import BitstringModel.Proofs.Basic
 import BitstringModel.Proofs.C01
 namespace BM.C08
+open BM
+
+/-- Clamped bounds of a step-1 slice with natural-number start/stop. -/
+theorem sliceIndices_nat (a b n : Nat) :
+    Py.sliceIndices (some (a : Int)) (some (b : Int)) 1 n =
+      (((min a n : Nat) : Int), ((min b n : Nat) : Int), 1) := by
+  have h1 : ¬ ((a : Int) < 0) := by omega
+  have h2 : ¬ ((b : Int) < 0) := by omega
+  have h3 : ¬ ((1 : Int) < 0) := by omega
+  simp only [Py.sliceIndices, h1, h2, h3, if_false]
+  congr 1
+  · omega
+  · congr 1; omega
+
+/-- A step-1 slice with non-negative bounds is `drop`/`take`, whatever the bounds (Python clamps). -/
+theorem getSlice_nat {α} (l : List α) (a b : Nat) :
+    Py.getSlice l (some (a : Int)) (some (b : Int)) none = .ok ((l.drop a).take (b - a)) := by
+  rw [C01.getSlice_step1, sliceIndices_nat]
+  simp only [Int.toNat_natCast]
+  congr 1
+  by_cases ha : a ≤ l.length
+  · rw [Nat.min_eq_left ha]
+    rw [List.take_eq_take_iff]
+    simp only [List.length_drop]
+    omega
+  · rw [List.drop_eq_nil_of_le (by omega), List.drop_eq_nil_of_le (by omega)]
+    simp
+
+/-- `l[a:]` for a natural-number start. -/
+theorem getSlice_nat_none {α} (l : List α) (a : Nat) :
+    Py.getSlice l (some (a : Int)) none none = .ok (l.drop a) := by
+  rw [C01.getSlice_step1]
+  have h1 : ¬ ((a : Int) < 0) := by omega
+  have h3 : ¬ ((1 : Int) < 0) := by omega
+  have h : Py.sliceIndices (some (a : Int)) none 1 l.length =
+      (((min a l.length : Nat) : Int), (l.length : Int), 1) := by
+    simp only [Py.sliceIndices, h1, h3, if_false]
+    congr 1
+    omega
+  rw [h]
+  congr 1
+  by_cases ha : a ≤ l.length
+  · rw [Nat.min_eq_left ha]
+    simp only [Int.toNat_natCast]
+    rw [List.take_of_length_le (by simp only [List.length_drop]; omega)]
+  · rw [List.drop_eq_nil_of_le (by simp; omega), List.drop_eq_nil_of_le (by omega)]
+    simp
+
+theorem sliceIndices_bounds4 (s e : Option Int) (n : Nat) :
+    0 ≤ (Py.sliceIndices s e 1 n).1 ∧ (Py.sliceIndices s e 1 n).1 ≤ n ∧
+    0 ≤ (Py.sliceIndices s e 1 n).2.1 ∧ (Py.sliceIndices s e 1 n).2.1 ≤ n := by
+  have h3 : ¬ ((1 : Int) < 0) := by omega
+  unfold Py.sliceIndices
+  cases s <;> cases e <;> simp only [h3, if_false] <;> (try split) <;> (try split) <;> omega
+
+theorem sliceIndices_inrange (p q : Int) (n : Nat) (hp0 : 0 ≤ p) (hp : p ≤ n) (hq0 : 0 ≤ q) (hq : q ≤ n) :
+    Py.sliceIndices (some p) (some q) 1 n = (p, q, 1) := by
+  have h1 : ¬ (p < 0) := by omega
+  have h2 : ¬ (q < 0) := by omega
+  have h3 : ¬ ((1 : Int) < 0) := by omega
+  simp only [Py.sliceIndices, h1, h2, h3, if_false]
+  congr 1
+  · omega
+  · congr 1; omega
+
+/-- Normalising a step-1 key against the length is idempotent. -/
+theorem sliceIndices_idem (s e : Option Int) (n : Nat) :
+    Py.sliceIndices (some (Py.sliceIndices s e 1 n).1) (some (Py.sliceIndices s e 1 n).2.1) 1 n =
+      ((Py.sliceIndices s e 1 n).1, (Py.sliceIndices s e 1 n).2.1, 1) := by
+  obtain ⟨h1, h2, h3, h4⟩ := sliceIndices_bounds4 s e n
+  exact sliceIndices_inrange _ _ n h1 h2 h3 h4
+
+theorem getSlice_normalised {α} (l : List α) (s e : Option Int) :
+    Py.getSlice l (some (Py.sliceIndices s e 1 l.length).1) (some (Py.sliceIndices s e 1 l.length).2.1) none =
+      Py.getSlice l s e none := by
+  rw [C01.getSlice_step1, C01.getSlice_step1, sliceIndices_idem]
+
+theorem window_eq (data : List Bool) (off len : Nat) : window data off len = (data.drop off).take len := rfl
+
+/-- The BytesIO byte-window-then-bit-slice computation, in list form. -/
+theorem bytesIO_collapse {α} (data : List α) (off len : Nat) (B : Nat) (hB : off + len ≤ B) :
+    (((data.drop (off / 8 * 8)).take (B - off / 8 * 8)).drop (off % 8)).take (off % 8 + len - off % 8) =
+      (data.drop off).take len := by
+  rw [List.drop_take, List.drop_drop, List.take_take]
+  have h1 : off / 8 * 8 + off % 8 = off := by omega
+  rw [h1]
+  congr 1
+  omega
+
 end BM.C08
